@@ -4,6 +4,7 @@ package c03
 import (
 	"encoding/json"
 	"fmt"
+	"io"
 	"os"
 	"path"
 	"sort"
@@ -345,6 +346,18 @@ func (m *machine) handleStep(op ops.Op) ops.Res {
 			if f != nil {
 				res.Err = hackpadfs.ChmodFile(f, 0o600)
 			}
+		case "hreaddir":
+			// page size in Perm (1, 2, ... or 0 for "all"): a directory handle read in pages while its directory changes
+			if f != nil {
+				n := int(op.Perm)
+				if n == 0 {
+					n = -1
+				}
+				_, res.Err = hackpadfs.ReadDirFile(f, n)
+				if res.Err == io.EOF {
+					res.Err = nil
+				}
+			}
 		case "hclose":
 			if f != nil {
 				res.Err = f.Close()
@@ -414,11 +427,18 @@ func run(t *testing.T, kind string) {
 				op := gen.Op(rt, tr, m.s.alphabet(), 4, m.s.rootMut)
 				if rapid.IntRange(0, 4).Draw(rt, "handlestep") == 0 {
 					// handles that stay open across later namespace operations (remove / rename / re-create of their path)
-					op = ops.Op{K: rapid.SampledFrom([]string{"hopen", "hopen", "hwrite", "hwrite", "htrunc", "hchmod", "hclose"}).Draw(rt, "hk"), N: rapid.IntRange(0, 1).Draw(rt, "slot")}
+					op = ops.Op{K: rapid.SampledFrom([]string{"hopen", "hopen", "hwrite", "hwrite", "htrunc", "hchmod", "hreaddir", "hreaddir", "hclose"}).Draw(rt, "hk"), N: rapid.IntRange(0, 1).Draw(rt, "slot")}
 					switch op.K {
+					case "hreaddir":
+						op.Perm = uint32(rapid.SampledFrom([]int{1, 1, 2, 3, 0}).Draw(rt, "pagesize"))
 					case "hopen":
 						op.P = gen.Path(rt, tr, m.s.alphabet(), 4, true, "hp")
-						op.Flag = rapid.SampledFrom([]int{os.O_RDWR, os.O_WRONLY, os.O_RDWR | os.O_CREATE, os.O_WRONLY | os.O_APPEND | os.O_CREATE}).Draw(rt, "hflag")
+						op.Flag = rapid.SampledFrom([]int{os.O_RDWR, os.O_WRONLY, os.O_RDWR | os.O_CREATE, os.O_WRONLY | os.O_APPEND | os.O_CREATE, os.O_RDONLY}).Draw(rt, "hflag")
+						if len(tr.Dirs) > 0 && rapid.IntRange(0, 3).Draw(rt, "opendir") == 0 {
+							// a directory handle (read-only), kept open while its directory is changed
+							op.P = rapid.SampledFrom(tr.Dirs).Draw(rt, "hdir")
+							op.Flag = os.O_RDONLY
+						}
 					case "hwrite":
 						op.Data = gen.Payload(rt, 4, "hdata")
 					}
@@ -427,7 +447,7 @@ func run(t *testing.T, kind string) {
 					// aim namespace operations at the path of a handle that is still open (and at its parent):
 					// unlink it, remove or replace its directory, re-create either as the other kind, then use the handle
 					p := rapid.SampledFrom(hp).Draw(rt, "hpath")
-					target := rapid.SampledFrom([]string{p, path.Dir(p)}).Draw(rt, "target")
+					target := rapid.SampledFrom([]string{p, path.Dir(p), path.Join(p, rapid.SampledFrom(m.s.alphabet()).Draw(rt, "childname"))}).Draw(rt, "target")
 					other := gen.Random(rt, m.s.alphabet(), 2, false, "other")
 					switch rapid.IntRange(0, 6).Draw(rt, "tk") {
 					case 0:
@@ -557,6 +577,64 @@ func runStale(t *testing.T, kind string) {
 	})
 }
 
+// runDirPage: a directory handle read in pages while the directory changes underneath: populate a directory with 2..4
+// children, open it, then interleave ReadDir(n) on the handle with removals, renames and additions of children (mostly of
+// children the pages have not delivered yet). Every call terminates and the tree invariants hold after every step.
+func runDirPage(t *testing.T, kind string) {
+	vf.Check(t, "dirpage-"+kind, func(rt *rapid.T, rec *vf.Rec) {
+		m := &machine{s: newSubject(kind)}
+		dir := rapid.SampledFrom([]string{".", "a", "a/b"}).Draw(rt, "dir")
+		var hist []ops.Op
+		if dir != "." {
+			hist = append(hist, ops.Op{K: "mkdirall", P: dir, Perm: 0o755})
+		}
+		names := []string{"a", "ab", "b", "c"} // few distinct elements: the invariant's path closure grows with their 4th power
+		k := rapid.IntRange(2, 4).Draw(rt, "children")
+		var kids []string
+		for i := 0; i < k; i++ {
+			p := path.Join(dir, names[i])
+			kids = append(kids, p)
+			if rapid.IntRange(0, 3).Draw(rt, "kiddir") == 0 {
+				hist = append(hist, ops.Op{K: "mkdir", P: p, Perm: 0o755})
+			} else {
+				hist = append(hist, ops.Op{K: "writefile", P: p, Data: []byte("x"), Perm: 0o644})
+			}
+		}
+		hist = append(hist, ops.Op{K: "hopen", P: dir, N: 0, Flag: os.O_RDONLY})
+		n := rapid.IntRange(2, 8).Draw(rt, "nsteps")
+		for i := 0; i < n; i++ {
+			switch rapid.IntRange(0, 9).Draw(rt, "sk") {
+			case 0, 1, 2, 3:
+				hist = append(hist, ops.Op{K: "hreaddir", N: 0, Perm: uint32(rapid.SampledFrom([]int{1, 1, 2, 3, 0}).Draw(rt, "pagesize"))})
+			case 4, 5, 6:
+				hist = append(hist, ops.Op{K: "removeall", P: rapid.SampledFrom(kids).Draw(rt, "rm")})
+			case 7:
+				hist = append(hist, ops.Op{K: "rename", P: rapid.SampledFrom(kids).Draw(rt, "mv"), P2: path.Join(dir, rapid.SampledFrom(names).Draw(rt, "mvto"))})
+			case 8:
+				hist = append(hist, ops.Op{K: "writefile", P: path.Join(dir, rapid.SampledFrom(names).Draw(rt, "add")), Data: []byte("n"), Perm: 0o644})
+			default:
+				hist = append(hist, ops.Op{K: "removeall", P: dir})
+			}
+		}
+		hist = append(hist, ops.Op{K: "hreaddir", N: 0, Perm: 1}, ops.Op{K: "hreaddir", N: 0, Perm: 0}, ops.Op{K: "hclose", N: 0})
+		rec.NonTrivial()
+		for _, op := range hist {
+			rec.Step(op)
+			rec.Class("op:" + op.K)
+			sig, msg := m.step(op, "dirpage:"+op.K)
+			if strings.HasSuffix(sig, ":I5-hang") || strings.HasSuffix(sig, "invariant-hang") {
+				rec.HangExit(sig, "%s", msg)
+			}
+			if sig != "" {
+				rec.Failf(rt, sig, "%s", msg)
+			}
+		}
+	})
+}
+
+func TestDirPageMem(t *testing.T)     { runDirPage(t, "mem") }
+func TestDirPageKVPlain(t *testing.T) { runDirPage(t, "kvplain") }
+
 func TestStaleMem(t *testing.T)     { runStale(t, "mem") }
 func TestStaleKVPlain(t *testing.T) { runStale(t, "kvplain") }
 
@@ -582,12 +660,14 @@ func replay(kind string) func(steps []json.RawMessage) (string, string) {
 	}
 }
 
-func TestReplayMem(t *testing.T)      { vf.Replay(t, "mem", replay("mem")) }
-func TestReplayStaleMem(t *testing.T) { vf.Replay(t, "stale-mem", replay("mem")) }
-func TestReplayStaleKV(t *testing.T)  { vf.Replay(t, "stale-kvplain", replay("kvplain")) }
-func TestReplayKVPlain(t *testing.T)  { vf.Replay(t, "kvplain", replay("kvplain")) }
-func TestReplayMount(t *testing.T)    { vf.Replay(t, "mount", replay("mount")) }
-func TestReplaySubMem(t *testing.T)   { vf.Replay(t, "submem", replay("submem")) }
-func TestReplaySubMount(t *testing.T) { vf.Replay(t, "submount", replay("submount")) }
+func TestReplayMem(t *testing.T)        { vf.Replay(t, "mem", replay("mem")) }
+func TestReplayStaleMem(t *testing.T)   { vf.Replay(t, "stale-mem", replay("mem")) }
+func TestReplayStaleKV(t *testing.T)    { vf.Replay(t, "stale-kvplain", replay("kvplain")) }
+func TestReplayDirPageMem(t *testing.T) { vf.Replay(t, "dirpage-mem", replay("mem")) }
+func TestReplayDirPageKV(t *testing.T)  { vf.Replay(t, "dirpage-kvplain", replay("kvplain")) }
+func TestReplayKVPlain(t *testing.T)    { vf.Replay(t, "kvplain", replay("kvplain")) }
+func TestReplayMount(t *testing.T)      { vf.Replay(t, "mount", replay("mount")) }
+func TestReplaySubMem(t *testing.T)     { vf.Replay(t, "submem", replay("submem")) }
+func TestReplaySubMount(t *testing.T)   { vf.Replay(t, "submount", replay("submount")) }
 
 var _ = sort.Strings
